@@ -22,7 +22,7 @@
    Method: a partial-correctness triple over the state+crash monad (`tri`, a
    crashed computation satisfies every postcondition; runs never crash by
    InvProofs.do_pass_ipre), two regimes of one invariant (OS: not stopping yet,
-   OB c sg0: stopping, the group c being stopped), and a relation `ext w w'`
+   OB c sg0 fz: stopping, the group c being stopped), and a relation `ext w w'`
    ("w' differs from w only where the invariant does not look") under which
    most of the model is handled wholesale (`calm`). *)
 From Coq Require Import ZArith List Bool Lia Arith ZifyBool.
@@ -252,18 +252,20 @@ Definition OS (w : world) : Prop :=
   exited w = false.
 
 (* regime B: announced.  sg0 is an earlier value of stop_groups, c the group being stopped *)
-Definition Core (sg0 : list nat) (w : world) : Prop :=
+Definition Core (sg0 : list nat) (fz : nat -> Prop) (w : world) : Prop :=
   TS w /\ ord_ok (out w) /\ stopping w = true /\ mood w < 1 /\
   (exists done, sorted_groups = stop_groups w ++ done /\ done_stopped done (sts w)) /\
-  (exists popped, sg0 = stop_groups w ++ popped).
+  (exists popped, sg0 = stop_groups w ++ popped) /\
+  (forall j, fz j -> in_stopped_states (sts w j) = true).
+Definition nofz : nat -> Prop := fun _ => False.
 Definition cur (c : option nat) (w : world) : Prop :=
   match c with Some g => exists r, stop_groups w = r ++ [g] | None => True end.
 Definition allowed (c : option nat) (i : nat) : Prop :=
   match c with Some g => In i (g_procs (gc g)) | None => False end.
-Definition OB (c : option nat) (sg0 : list nat) (w : world) : Prop :=
-  Core sg0 w /\ exited w = false /\ cur c w.
-Definition FIN (sg0 : list nat) (w : world) : Prop :=
-  Core sg0 w /\ exited w = true /\ any_unstopped gconfs w = false.
+Definition OB (c : option nat) (sg0 : list nat) (fz : nat -> Prop) (w : world) : Prop :=
+  Core sg0 fz w /\ exited w = false /\ cur c w.
+Definition FIN (sg0 : list nat) (fz : nat -> Prop) (w : world) : Prop :=
+  Core sg0 fz w /\ exited w = true /\ any_unstopped gconfs w = false.
 
 Lemma TS_ext w w' : ext w w' -> TS w -> TS w'.
 Proof. intros [[es [E F]] Es _ _ _ _] H i. rewrite E, Es, last_state_plain by exact F. apply H. Qed.
@@ -277,16 +279,17 @@ Proof.
   - rewrite E. intros Hin. apply H4. eapply sup_plain; eassumption.
 Qed.
 
-Lemma Core_resp sg0 : respects (Core sg0).
+Lemma Core_resp sg0 fz : respects (Core sg0 fz).
 Proof.
-  intros w w' X (H1 & H2 & H3 & H4 & H5 & H6). pose proof X as [[es [E F]] Es E1 E2 E3 E4].
+  intros w w' X (H1 & H2 & H3 & H4 & H5 & H6 & H7). pose proof X as [[es [E F]] Es E1 E2 E3 E4].
   repeat split; try congruence.
   - eapply TS_ext; eassumption.
   - rewrite E. apply ord_ok_plain; assumption.
   - rewrite E2, Es. exact H5.
   - rewrite E2. exact H6.
+  - rewrite Es. exact H7.
 Qed.
-Lemma OB_resp c sg0 : respects (OB c sg0).
+Lemma OB_resp c sg0 fz : respects (OB c sg0 fz).
 Proof.
   intros w w' X (H1 & H2 & H3). split; [eapply Core_resp; eassumption|]. destruct X. split; [congruence|].
   destruct c; cbn in *; [rewrite x_sg0; exact H3 | exact Logic.I].
@@ -313,12 +316,12 @@ Proof.
     + rewrite Eo. intros [Hin|Hin]; [discriminate | contradiction].
 Qed.
 
-Lemma OB_cs c sg0 i new e :
-  tri (fun w => OB c sg0 w /\ (in_stopped_states (sts w i) = true -> in_stopped_states new = true) /\
+Lemma OB_cs c sg0 fz i new e :
+  tri (fun w => OB c sg0 fz w /\ (in_stopped_states (sts w i) = true -> in_stopped_states new = true) /\
                 (new = STOPPING -> sts w i = STOPPING \/ allowed c i))
-      (Model.change_state U i new e) (fun _ => OB c sg0).
+      (Model.change_state U i new e) (fun _ => OB c sg0 fz).
 Proof.
-  intros w (((H1 & H2 & H3 & H4 & (done & Hd1 & Hd2) & H6) & H7 & H8) & Hst & Hal).
+  intros w (((H1 & H2 & H3 & H4 & (done & Hd1 & Hd2) & H6 & Hfz) & H7 & H8) & Hst & Hal).
   destruct (cs_cases U i new e w) as [[_ ->] | [Hne (w' & x & -> & Eo & Es & E1 & E2 & E3 & E4)]].
   - repeat split; try assumption. exists done. auto.
   - split; [|split; [congruence | destruct c; cbn in *; [rewrite E2; exact H8 | exact Logic.I]]].
@@ -332,6 +335,7 @@ Proof.
     + exists done. split; [rewrite E2; exact Hd1|]. rewrite Es. intros g j Hg Hj. unfold upd.
       destruct (Nat.eqb_spec j i) as [->|Ej]; [apply Hst|]; eapply Hd2; eassumption.
     + rewrite E2. exact H6.
+    + rewrite Es. intros j Hj. unfold upd. destruct (Nat.eqb_spec j i) as [->|Ej]; [apply Hst|]; apply Hfz; exact Hj.
 Qed.
 
 Lemma inv_move (I : world -> Prop) i site ok f new e :
@@ -350,30 +354,30 @@ Proof.
   apply inv_move; [exact OS_resp|]. eapply tri_conseq; [apply OS_cs | intros w [H _]; exact H | auto].
 Qed.
 
-Lemma OB_move c sg0 i site ok f new e :
+Lemma OB_move c sg0 fz i site ok f new e :
   (forall s, ok s = true -> in_stopped_states s = true -> in_stopped_states new = true) ->
   (new = STOPPING -> allowed c i) ->
-  inv (OB c sg0) (Model.move U i site ok f new e).
+  inv (OB c sg0 fz) (Model.move U i site ok f new e).
 Proof.
-  intros H1 H2. apply inv_move; [apply OB_resp|]. eapply tri_conseq; [apply (OB_cs c sg0) | | auto].
+  intros H1 H2. apply inv_move; [apply OB_resp|]. eapply tri_conseq; [apply (OB_cs c sg0 fz) | | auto].
   intros w [Hw Ho]. split; [exact Hw | split; [apply H1; exact Ho | intros E; right; auto]].
 Qed.
 
-Lemma OB_cs_stopped c sg0 i new e :
-  in_stopped_states new = true -> inv (OB c sg0) (Model.change_state U i new e).
+Lemma OB_cs_stopped c sg0 fz i new e :
+  in_stopped_states new = true -> inv (OB c sg0 fz) (Model.change_state U i new e).
 Proof.
-  intros H. eapply tri_conseq; [apply (OB_cs c sg0) | | auto]. intros w Hw. split; [exact Hw|].
+  intros H. eapply tri_conseq; [apply (OB_cs c sg0 fz) | | auto]. intros w Hw. split; [exact Hw|].
   split; [auto | intros ->; discriminate H].
 Qed.
 
-Lemma OB_mood c sg0 w : OB c sg0 w -> mood w < 1.
+Lemma OB_mood c sg0 fz w : OB c sg0 fz w -> mood w < 1.
 Proof. intros ((_ & _ & _ & H & _) & _). exact H. Qed.
 
 Lemma OS_set_mood m : inv OS (modw (set_mood m)).
 Proof. intros w H. exact H. Qed.
-Lemma OB_set_mood c sg0 m : m < 1 -> inv (OB c sg0) (modw (set_mood m)).
+Lemma OB_set_mood c sg0 fz m : m < 1 -> inv (OB c sg0 fz) (modw (set_mood m)).
 Proof.
-  intros Hm w ((H1 & H2 & H3 & H4 & H5 & H6) & H7 & H8). cbn.
+  intros Hm w ((H1 & H2 & H3 & H4 & H5 & H6 & Hfz) & H7 & H8). cbn.
   split; [repeat split; assumption | split; [exact H7 | destruct c; exact H8]].
 Qed.
 
@@ -399,18 +403,18 @@ Ltac itac :=
     | |- inv _ (child_dies _ _) => unfold child_dies; icalm
     | |- inv _ (Model.rollback_adjust _ _ _ _) => unfold Model.rollback_adjust; icalm
     | |- inv OS (modw (set_mood _)) => apply OS_set_mood
-    | |- inv (OB _ _) (modw (set_mood _)) => apply OB_set_mood; lia
+    | |- inv (OB _ _ _) (modw (set_mood _)) => apply OB_set_mood; lia
     | |- inv _ (modw _) => icalm
     | |- inv OS (Model.move _ _ _ _ _ _ _) => apply OS_move
     | |- inv OS (Model.change_state _ _ _ _) => apply OS_cs
-    | |- inv (OB _ _) (Model.move _ _ _ _ _ _ _) => apply OB_move; [side_st | discriminate]
-    | |- inv (OB _ _) (Model.change_state _ _ UNKNOWN _) => apply OB_cs_stopped; reflexivity
+    | |- inv (OB _ _ _) (Model.move _ _ _ _ _ _ _) => apply OB_move; [side_st | discriminate]
+    | |- inv (OB _ _ _) (Model.change_state _ _ UNKNOWN _) => apply OB_cs_stopped; reflexivity
     | |- inv _ (Model.kill_mark _ _ _ _) => unfold Model.kill_mark
     | |- inv _ (mapM_ _ _) => apply inv_mapM; intros
-    | Hm : OB _ _ ?w0 |- inv _ (if mood ?w0 >? 0 then _ else _) =>
-        replace (mood w0 >? 0) with false by (pose proof (OB_mood _ _ _ Hm); lia)
-    | Hm : OB _ _ ?w0 |- inv _ (if mood ?w0 <? 1 then _ else _) =>
-        replace (mood w0 <? 1) with true by (pose proof (OB_mood _ _ _ Hm); lia)
+    | Hm : OB _ _ _ ?w0 |- inv _ (if mood ?w0 >? 0 then _ else _) =>
+        replace (mood w0 >? 0) with false by (pose proof (OB_mood _ _ _ _ Hm); lia)
+    | Hm : OB _ _ _ ?w0 |- inv _ (if mood ?w0 <? 1 then _ else _) =>
+        replace (mood w0 <? 1) with true by (pose proof (OB_mood _ _ _ _ Hm); lia)
     | |- inv _ _ => solve [eauto with orddb]
     | |- inv _ (if ?c then _ else _) => destruct c
     | |- inv _ (match ?x with _ => _ end) => destruct x
@@ -509,71 +513,71 @@ Proof. intros H w Hw. unfold bind, getw. apply (H w Hw w Hw). Qed.
 Lemma inv_pre {A} (I F : world -> Prop) (m : Model.M A) : inv I m -> tri (fun w => I w /\ F w) m (fun _ => I).
 Proof. intros H. eapply tri_conseq; [exact H | intros w [Hw _]; exact Hw | auto]. Qed.
 
-Definition OBs c sg0 i s (w : world) : Prop := OB c sg0 w /\ sts w i = s.
-Lemma OBs_resp c sg0 i s : respects (OBs c sg0 i s).
+Definition OBs c sg0 fz i s (w : world) : Prop := OB c sg0 fz w /\ sts w i = s.
+Lemma OBs_resp c sg0 fz i s : respects (OBs c sg0 fz i s).
 Proof. intros w w' X [H1 H2]. split; [eapply OB_resp; eassumption | destruct X; congruence]. Qed.
 Hint Resolve OBs_resp : orddb.
 
 Ltac itacB :=
   repeat match goal with
-    | H : allowed ?c ?i |- inv (OB ?c _) (Model.move _ ?i _ _ _ STOPPING _) =>
+    | H : allowed ?c ?i |- inv (OB ?c _ _) (Model.move _ ?i _ _ _ STOPPING _) =>
         apply OB_move; [side_st | intros _; exact H]
     | |- inv _ (if true then _ else _) => cbv iota
     | |- inv _ (if false then _ else _) => cbv iota
     | |- _ => progress itac
     end.
 
-Lemma B_give_up c sg0 i : inv (OB c sg0) (Model.give_up U i).
+Lemma B_give_up c sg0 fz i : inv (OB c sg0 fz) (Model.give_up U i).
 Proof. unfold Model.give_up. itac. Qed.
 Hint Resolve B_give_up : orddb.
 
-Lemma B_kill_allowed c sg0 i sig : allowed c i -> inv (OB c sg0) (Model.kill U pconfs i sig).
+Lemma B_kill_allowed c sg0 fz i sig : allowed c i -> inv (OB c sg0 fz) (Model.kill U pconfs i sig).
 Proof. intros Ha. unfold Model.kill. itacB. Qed.
 
-Lemma B_kill_tail c sg0 i (t sig : Z) :
-  inv (OB c sg0)
+Lemma B_kill_tail c sg0 fz i (t sig : Z) :
+  inv (OB c sg0 fz)
     (bind (Model.kill_mark U i t sig) (fun r =>
        if r =? 2 then bind (modp i (fun p => p_delay (p_killing p false) 0)) (fun _ => ret true) else ret false)).
 Proof. itac. Qed.
 
-Lemma B_kill_stopping c sg0 i sig :
-  tri (OBs c sg0 i STOPPING) (Model.kill U pconfs i sig) (fun _ => OB c sg0).
+Lemma B_kill_stopping c sg0 fz i sig :
+  tri (OBs c sg0 fz i STOPPING) (Model.kill U pconfs i sig) (fun _ => OB c sg0 fz).
 Proof.
   unfold Model.kill. apply tri_getw_any. intros w0 _. apply tri_getp_any. intros p.
   apply (tri_gets_known _ i STOPPING); [intros w [_ H]; exact H|]. cbn [pstate_eqb]. cbv iota.
   destruct (pid p =? 0); [apply tri_ret; intros w [H _]; exact H|].
-  eapply tri_bind; [apply (inv_calm (OBs c sg0 i STOPPING)); [auto with orddb | ctac]|]. intros ?u; cbv beta.
+  eapply tri_bind; [apply (inv_calm (OBs c sg0 fz i STOPPING)); [auto with orddb | ctac]|]. intros ?u; cbv beta.
   eapply tri_bind.
-  - apply (inv_move (OBs c sg0 i STOPPING)); [auto with orddb|].
+  - apply (inv_move (OBs c sg0 fz i STOPPING)); [auto with orddb|].
     intros w [[Hw Hs] _]. destruct (cs_cases U i STOPPING true w) as [[_ ->] | [Hne _]]; [split; assumption | contradiction].
-  - intros ?u; cbv beta. eapply tri_conseq; [apply (B_kill_tail c sg0) | intros w [H _]; exact H | auto].
+  - intros ?u; cbv beta. eapply tri_conseq; [apply (B_kill_tail c sg0 fz) | intros w [H _]; exact H | auto].
 Qed.
 
-Lemma B_stop c sg0 i : allowed c i -> inv (OB c sg0) (Model.stop U pconfs i).
-Proof. intros Ha. unfold Model.stop. pose proof (B_kill_allowed c sg0 i) as Hk. itac. Qed.
+Lemma B_stop c sg0 fz i : allowed c i -> inv (OB c sg0 fz) (Model.stop U pconfs i).
+Proof. intros Ha. unfold Model.stop. pose proof (B_kill_allowed c sg0 fz i) as Hk. itac. Qed.
 
-Lemma B_finish c sg0 i s : inv (OB c sg0) (Model.finish U pconfs i s).
+Lemma B_finish c sg0 fz i s : inv (OB c sg0 fz) (Model.finish U pconfs i s).
 Proof. unfold Model.finish. itacB. Qed.
 Hint Resolve B_finish : orddb.
 
-Lemma B_transition c sg0 i : inv (OB c sg0) (Model.transition U pconfs i).
+Lemma B_transition c sg0 fz i : inv (OB c sg0 fz) (Model.transition U pconfs i).
 Proof.
-  unfold Model.transition. apply inv_getw. intros w0 Hw0. pose proof (OB_mood _ _ _ Hw0) as Hm.
+  unfold Model.transition. apply inv_getw. intros w0 Hw0. pose proof (OB_mood _ _ _ _ Hw0) as Hm.
   replace (mood w0 >? 0) with false by lia. cbv zeta.
   apply tri_gets. intros state.
   destruct state; cbn [pstate_eqb]; cbv iota;
     try (apply inv_pre; solve [itacB]).
   (* STOPPING: the SIGKILL escalation finds the process in STOPPING, no notification *)
-  change (fun w => OB c sg0 w /\ sts w i = STOPPING) with (OBs c sg0 i STOPPING).
-  eapply tri_bind; [apply (inv_calm (OBs c sg0 i STOPPING)); [auto with orddb | unfold Model.rollback_adjust; ctac]|].
-  intros ?u; cbv beta. apply (tri_bind _ _ _ (fun _ => OBs c sg0 i STOPPING)); [apply tri_ret; auto|]. intros ?u; cbv beta.
-  apply (tri_bind _ _ _ (fun _ => OBs c sg0 i STOPPING)); [apply tri_ret; auto|]. intros ?u; cbv beta.
+  change (fun w => OB c sg0 fz w /\ sts w i = STOPPING) with (OBs c sg0 fz i STOPPING).
+  eapply tri_bind; [apply (inv_calm (OBs c sg0 fz i STOPPING)); [auto with orddb | unfold Model.rollback_adjust; ctac]|].
+  intros ?u; cbv beta. apply (tri_bind _ _ _ (fun _ => OBs c sg0 fz i STOPPING)); [apply tri_ret; auto|]. intros ?u; cbv beta.
+  apply (tri_bind _ _ _ (fun _ => OBs c sg0 fz i STOPPING)); [apply tri_ret; auto|]. intros ?u; cbv beta.
   apply tri_getp_any. intros p. destruct (kill_due p (now w0)).
   - eapply tri_bind; [apply B_kill_stopping|]. intros b. apply tri_ret. auto.
   - apply tri_ret. intros w [H _]. exact H.
 Qed.
 Hint Resolve B_transition : orddb.
-Lemma B_reap c sg0 fuel : inv (OB c sg0) (Model.reap U pconfs fuel).
+Lemma B_reap c sg0 fz uel : inv (OB c sg0 fz) (Model.reap U pconfs fuel).
 Proof. induction fuel as [|f IH]; cbn [Model.reap]; itac. Qed.
 Hint Resolve B_reap : orddb.
 
@@ -587,49 +591,49 @@ Proof.
   induction l as [|a l IH]; cbn; [auto|]. intros H. apply insert_by_in in H. destruct H as [->|H]; auto.
 Qed.
 
-Lemma B_stop_all sg0 g : inv (OB (Some g) sg0) (Model.stop_all U pconfs gconfs g).
+Lemma B_stop_all sg0 fz g : inv (OB (Some g) sg0 fz) (Model.stop_all U pconfs gconfs g).
 Proof.
   unfold Model.stop_all. apply inv_mapM_in. intros i Hi. apply in_rev in Hi. apply sort_by_in in Hi.
   assert (Ha : allowed (Some g) i) by exact Hi.
-  pose proof (B_stop (Some g) sg0 i Ha) as Hs. itac.
+  pose proof (B_stop (Some g) sg0 fz i Ha) as Hs. itac.
 Qed.
 
-Lemma B_handle_signal c sg0 : inv (OB c sg0) handle_signal.
+Lemma B_handle_signal c sg0 fz : inv (OB c sg0 fz) handle_signal.
 Proof. unfold handle_signal. itac. Qed.
-Lemma B_start_process c sg0 i wait : inv (OB c sg0) (Model.start_process U pconfs i wait).
+Lemma B_start_process c sg0 fz i wait : inv (OB c sg0 fz) (Model.start_process U pconfs i wait).
 Proof. unfold Model.start_process. itac. Qed.
-Lemma B_start_onwait c sg0 i : inv (OB c sg0) (start_onwait i).
+Lemma B_start_onwait c sg0 fz i : inv (OB c sg0 fz) (start_onwait i).
 Proof. unfold start_onwait. itac. Qed.
-Lemma B_stop_process c sg0 i wait : inv (OB c sg0) (Model.stop_process U pconfs i wait).
+Lemma B_stop_process c sg0 fz i wait : inv (OB c sg0 fz) (Model.stop_process U pconfs i wait).
 Proof. unfold Model.stop_process. itac. Qed.
-Lemma B_stop_onwait c sg0 i : inv (OB c sg0) (Model.stop_onwait U pconfs i).
+Lemma B_stop_onwait c sg0 fz i : inv (OB c sg0 fz) (Model.stop_onwait U pconfs i).
 Proof. unfold Model.stop_onwait. itac. Qed.
-Lemma B_signal_process c sg0 i sig ok : inv (OB c sg0) (Model.signal_process U pconfs i sig ok).
+Lemma B_signal_process c sg0 fz i sig ok : inv (OB c sg0 fz) (Model.signal_process U pconfs i sig ok).
 Proof. unfold Model.signal_process. itac. Qed.
 Hint Resolve B_handle_signal B_start_process B_start_onwait B_stop_process B_stop_onwait B_signal_process : orddb.
-Lemma B_call_one c sg0 k wait i : inv (OB c sg0) (Model.call_one U pconfs k wait i).
+Lemma B_call_one c sg0 fz k wait i : inv (OB c sg0 fz) (Model.call_one U pconfs k wait i).
 Proof. destruct k; cbn [Model.call_one]; itac. Qed.
-Lemma B_poll_one c sg0 k i : inv (OB c sg0) (Model.poll_one U pconfs k i).
+Lemma B_poll_one c sg0 fz k i : inv (OB c sg0 fz) (Model.poll_one U pconfs k i).
 Proof. destruct k; cbn [Model.poll_one]; itac. Qed.
 Hint Resolve B_call_one B_poll_one : orddb.
-Lemma B_all_first c sg0 k wait l : forall cbs res, inv (OB c sg0) (Model.all_first U pconfs k wait l cbs res).
+Lemma B_all_first c sg0 fz k wait l : forall cbs res, inv (OB c sg0 fz) (Model.all_first U pconfs k wait l cbs res).
 Proof. induction l as [|x l IH]; intros; cbn [Model.all_first]; itac. Qed.
-Lemma B_all_poll c sg0 k l : forall cbs res, inv (OB c sg0) (Model.all_poll U pconfs k l cbs res).
+Lemma B_all_poll c sg0 fz k l : forall cbs res, inv (OB c sg0 fz) (Model.all_poll U pconfs k l cbs res).
 Proof. induction l as [|x l IH]; intros; cbn [Model.all_poll]; itac. Qed.
 Hint Resolve B_all_first B_all_poll : orddb.
-Lemma B_poll_deferred c sg0 d : inv (OB c sg0) (Model.poll_deferred U pconfs d).
+Lemma B_poll_deferred c sg0 fz d : inv (OB c sg0 fz) (Model.poll_deferred U pconfs d).
 Proof. destruct d; cbn [Model.poll_deferred]; itac. Qed.
 Hint Resolve B_poll_deferred : orddb.
-Lemma B_poll_pending c sg0 l : forall keep, inv (OB c sg0) (Model.poll_pending U pconfs l keep).
+Lemma B_poll_pending c sg0 fz l : forall keep, inv (OB c sg0 fz) (Model.poll_pending U pconfs l keep).
 Proof. induction l as [|x l IH]; intros; cbn [Model.poll_pending]; itac. Qed.
 Hint Resolve B_poll_pending : orddb.
-Lemma B_defer_now c sg0 d : inv (OB c sg0) (Model.defer_now U pconfs d).
+Lemma B_defer_now c sg0 fz d : inv (OB c sg0 fz) (Model.defer_now U pconfs d).
 Proof. unfold Model.defer_now, add_pending. itac. Qed.
 Hint Resolve B_defer_now : orddb.
-Lemma B_do_rpc c sg0 req r : inv (OB c sg0) (Model.do_rpc U pconfs gconfs req r).
+Lemma B_do_rpc c sg0 fz req r : inv (OB c sg0 fz) (Model.do_rpc U pconfs gconfs req r).
 Proof. unfold Model.do_rpc. destruct r; itac. Qed.
 Hint Resolve B_do_rpc : orddb.
-Lemma B_do_act c sg0 a : inv (OB c sg0) (Model.do_act U pconfs gconfs a).
+Lemma B_do_act c sg0 fz a : inv (OB c sg0 fz) (Model.do_act U pconfs gconfs a).
 Proof. destruct a; cbn [Model.do_act]; itac. Qed.
 Hint Resolve B_do_act : orddb.
 
@@ -642,7 +646,7 @@ Proof.
 Qed.
 
 (* phase 2 removes the last group only when all of its processes are stopped *)
-Lemma B_phase2 sg0 : inv (OB None sg0) (Model.phase2 gconfs).
+Lemma B_phase2 sg0 fz : inv (OB None sg0 fz) (Model.phase2 gconfs).
 Proof.
   unfold Model.phase2. apply tri_getw. intros w0 H0 w ->.
   destruct (mood w0 <? 1); [|exact H0].
@@ -658,7 +662,7 @@ Proof.
 Qed.
 Hint Resolve B_phase2 : orddb.
 
-Lemma B_prefix sg0 o : inv (OB None sg0) (pass_prefix o).
+Lemma B_prefix sg0 fz o : inv (OB None sg0 fz) (pass_prefix o).
 Proof. unfold pass_prefix, transition_group, reap_all. itac. Qed.
 
 (* ---------- loop_head: announcement, stop_all on the last group, exit test *)
@@ -667,13 +671,13 @@ Definition loop_tail : Model.M unit :=
   bind (match rev (stop_groups w) with [] => ret tt | g :: _ => Model.stop_all U pconfs gconfs g end) (fun _ =>
   bind getw (fun w => if any_unstopped gconfs w then ret tt else modw set_exited))).
 
-Lemma L_tail sg0 : tri (OB None sg0) loop_tail (fun _ w => OB None sg0 w \/ FIN sg0 w).
+Lemma L_tail sg0 fz : tri (OB None sg0 fz) loop_tail (fun _ w => OB None sg0 fz w \/ FIN sg0 fz w).
 Proof.
   unfold loop_tail. apply tri_getw. intros w0 H0.
-  apply (tri_bind _ _ _ (fun _ => OB None sg0)).
+  apply (tri_bind _ _ _ (fun _ => OB None sg0 fz)).
   - destruct (rev (stop_groups w0)) as [|g r] eqn:Er; [apply tri_ret; intros w ->; exact H0|].
     assert (Esg : stop_groups w0 = rev r ++ [g]) by (rewrite <- (rev_involutive (stop_groups w0)), Er; reflexivity).
-    eapply tri_conseq; [apply (B_stop_all sg0 g) | | ].
+    eapply tri_conseq; [apply (B_stop_all sg0 fz g) | | ].
     + intros w ->. destruct H0 as (Hc & Hx & _). split; [exact Hc | split; [exact Hx | exists (rev r); exact Esg]].
     + intros _ w (Hc & Hx & _). split; [exact Hc | split; [exact Hx | exact Logic.I]].
   - intros _. apply tri_getw. intros w1 H1 w ->.
@@ -692,38 +696,38 @@ Lemma loop_head_eq w :
 Proof. unfold Model.loop_head, bind at 1, getw at 1. destruct (mood w <? 1); reflexivity. Qed.
 
 Lemma L_A : tri OS (Model.loop_head U pconfs gconfs)
-                (fun _ w => OS w \/ OB None sorted_groups w \/ FIN sorted_groups w).
+                (fun _ w => OS w \/ OB None sorted_groups nofz w \/ FIN sorted_groups nofz w).
 Proof.
   intros w H0. rewrite loop_head_eq. destruct (mood w <? 1) eqn:Em; [|left; exact H0].
   destruct H0 as (H1 & H2 & H3 & H4 & H5 & H6). rewrite H3.
-  assert (HB : OB None sorted_groups (set_out (ESup 2 :: out w) (set_stopping true sorted_groups w))).
+  assert (HB : OB None sorted_groups nofz (set_out (ESup 2 :: out w) (set_stopping true sorted_groups w))).
   { split; [|split; [exact H6 | exact Logic.I]]. repeat split; cbn; try assumption; try lia.
     - exists []. split; [rewrite app_nil_r; reflexivity | intros g j []].
     - exists []. rewrite app_nil_r. reflexivity. }
   unfold bind at 1. unfold bind at 1, modw at 1, emit at 1.
-  pose proof (L_tail sorted_groups _ HB) as HT.
+  pose proof (L_tail sorted_groups nofz _ HB) as HT.
   destruct (loop_tail _) as [[a|] w']; [right; exact HT | exact Logic.I].
 Qed.
 
-Lemma L_B sg0 : tri (OB None sg0) (Model.loop_head U pconfs gconfs) (fun _ w => OB None sg0 w \/ FIN sg0 w).
+Lemma L_B sg0 fz : tri (OB None sg0 fz) (Model.loop_head U pconfs gconfs) (fun _ w => OB None sg0 fz w \/ FIN sg0 fz w).
 Proof.
-  intros w H0. rewrite loop_head_eq. pose proof (OB_mood _ _ _ H0) as Hm. replace (mood w <? 1) with true by lia.
+  intros w H0. rewrite loop_head_eq. pose proof (OB_mood _ _ _ _ H0) as Hm. replace (mood w <? 1) with true by lia.
   pose proof H0 as ((_ & _ & -> & _) & _). unfold bind at 1, ret at 1.
-  apply (L_tail sg0 _ H0).
+  apply (L_tail sg0 fz _ H0).
 Qed.
 
 Ltac fold_inv := match goal with |- tri ?I ?m (fun _ => ?I) => change (inv I m) end.
 Ltac pstep I := apply (tri_bind I _ _ (fun _ => I)); [fold_inv; solve [itac] | intros ?u; cbv beta].
 
 Lemma pass_A o : tri OS (Model.do_pass U pconfs gconfs o)
-                     (fun _ w => OS w \/ OB None sorted_groups w \/ FIN sorted_groups w).
+                     (fun _ w => OS w \/ OB None sorted_groups nofz w \/ FIN sorted_groups nofz w).
 Proof. unfold Model.do_pass, transition_group, reap_all. do 6 pstep OS. exact L_A. Qed.
 
-Lemma pass_B sg0 o : tri (OB None sg0) (Model.do_pass U pconfs gconfs o) (fun _ w => OB None sg0 w \/ FIN sg0 w).
-Proof. unfold Model.do_pass, transition_group, reap_all. do 6 pstep (OB None sg0). apply L_B. Qed.
+Lemma pass_B sg0 fz o : tri (OB None sg0 fz) (Model.do_pass U pconfs gconfs o) (fun _ w => OB None sg0 fz w \/ FIN sg0 fz w).
+Proof. unfold Model.do_pass, transition_group, reap_all. do 6 pstep (OB None sg0 fz). apply L_B. Qed.
 
 (* ---------- boundaries *)
-Definition BI (w : world) : Prop := OS w \/ exists sg0, OB None sg0 w \/ FIN sg0 w.
+Definition BI (w : world) : Prop := OS w \/ exists sg0, OB None sg0 nofz w \/ FIN sg0 nofz w.
 
 Lemma K_pass w o : K w -> exists w', Model.do_pass U pconfs gconfs o w = (Some tt, w') /\ K w'.
 Proof. intros HK. destruct (do_pass_ipre U pconfs gconfs o w HK Logic.I) as ([] & w' & E & K'). eauto. Qed.
@@ -744,7 +748,7 @@ Qed.
 Lemma step_exited w o : exited w = true -> step w o = w.
 Proof. intros H. unfold Model.step. rewrite H, orb_true_r. reflexivity. Qed.
 
-Lemma Core_rebase sg0 w : Core sg0 w -> Core (stop_groups w) w.
+Lemma Core_rebase sg0 w : Core sg0 nofz w -> Core (stop_groups w) nofz w.
 Proof.
   intros (H1 & H2 & H3 & H4 & H5 & H6). repeat split; try assumption. exists []. rewrite app_nil_r. reflexivity.
 Qed.
@@ -755,7 +759,7 @@ Proof.
   - pose proof HA as (_ & _ & _ & _ & _ & Hx).
     destruct (tri_pass _ _ w o HK Hx HA (pass_A o)) as [H | H]; [left; exact H | right; exists sorted_groups; exact H].
   - pose proof HB as (_ & Hx & _).
-    pose proof (tri_pass _ _ w o HK Hx HB (pass_B sg0 o)) as H. right. exists sg0. exact H.
+    pose proof (tri_pass _ _ w o HK Hx HB (pass_B sg0 nofz o)) as H. right. exists sg0. exact H.
   - pose proof HF as (_ & Hx & _). rewrite (step_exited w o Hx). right. exists sg0. right. exact HF.
 Qed.
 
@@ -781,7 +785,7 @@ Proof.
   apply existsb_exists in E. destruct E as (j & Hj & Hn). rewrite (H j Hj) in Hn. discriminate Hn.
 Qed.
 
-Lemma BI_core w : BI w -> stopping w = true -> Core (stop_groups w) w.
+Lemma BI_core w : BI w -> stopping w = true -> Core (stop_groups w) nofz w.
 Proof.
   intros [HA | (sg0 & [HB | HF])] Hs.
   - destruct HA as (_ & _ & E & _). congruence.
@@ -816,11 +820,11 @@ Theorem stop_groups_shrink ops o :
 Proof.
   cbv zeta. intros Hs. set (w := run ops) in *. pose proof (order_inv_run ops) as HB. fold w in HB.
   assert (HK : K w) by apply K_run.
-  assert (HC : Core (stop_groups w) (step w o) /\ Core (stop_groups w) w).
+  assert (HC : Core (stop_groups w) nofz (step w o) /\ Core (stop_groups w) nofz w).
   { destruct HB as [HA | (sg0 & [HB | HF])].
     - destruct HA as (_ & _ & E & _). congruence.
     - destruct HB as (Hc & Hx & _). apply Core_rebase in Hc. split; [|exact Hc].
-      destruct (tri_pass _ _ w o HK Hx (conj Hc (conj Hx Logic.I) : OB None (stop_groups w) w) (pass_B _ o)) as [(H&_)|(H&_)]; exact H.
+      destruct (tri_pass _ _ w o HK Hx (conj Hc (conj Hx Logic.I) : OB None (stop_groups w) nofz w) (pass_B _ _ o)) as [(H&_)|(H&_)]; exact H.
     - destruct HF as (Hc & Hx & _). rewrite (step_exited w o Hx). apply Core_rebase in Hc. split; exact Hc. }
   destruct HC as [(_ & _ & _ & _ & (done' & Hd1' & Hd2') & (popped & Hp)) (_ & _ & _ & _ & (done & Hd1 & _) & _)].
   exists popped. split; [exact Hp|]. intros g Hg. apply unstopped_intro. intros j Hj.
